@@ -295,6 +295,9 @@ def random_trees(rep, wd, rng, n_trees, runs_per_tree):
     if cur:
         chunks.append(cur)
 
+    cfg = os.path.join(wd, "robs.cfg")
+    open(cfg, "w").write("SPECIFICATION TraceSpec\nPOSTCONDITION TraceAccepted\nCHECK_DEADLOCK FALSE\n")
+
     def val(ic):
         i, chunk = ic
         # a chunk must start with a tree record
@@ -302,8 +305,6 @@ def random_trees(rep, wd, rng, n_trees, runs_per_tree):
         with open(tf, "w") as f:
             for e in chunk:
                 f.write(json.dumps(e) + "\n")
-        cfg = os.path.join(wd, "robs.cfg")
-        open(cfg, "w").write("SPECIFICATION TraceSpec\nPOSTCONDITION TraceAccepted\nCHECK_DEADLOCK FALSE\n")
         return chunk, run_tlc("ResolveObs.tla", cfg, f"robs-{i}", workers=1, timeout=1800, env_extra={"TRACE": tf},
                               java_opts="-Xss1g -Xmx2g -Dtlc2.tool.queue.IStateQueue=StateDeque", check=False)
     with cf.ThreadPoolExecutor(max_workers=12) as ex:
